@@ -358,6 +358,9 @@ pub fn exec_run_var(files: &[SrcFile], main: &str, opts: &RunOpts, variants: &[V
                 if let Some(q) = v.quarantine {
                     o.quarantine = q;
                 }
+                if let Some(d) = &v.delays {
+                    o.delays = d.clone();
+                }
                 o.host.retain(|h| h.name != "verif_sel");
                 o.host.push(HostDecl { name: "verif_sel".into(), args: vec![], ret: ScalarTy::Int, returns: vec![Scalar::Int(v.sel)] });
                 apply_hooks(&o);
